@@ -143,6 +143,9 @@ fn run_source<T: crate::ring::Elem>(
 fn check_repeated(name: &str, detail: &str, data: &[u64], rep: u64, got: &[u64], eof: bool, late: bool, panic: Option<String>) -> String {
     let verdict = if let Some(p) = panic {
         format!("FAIL panicked/failed: {}", p.replace(['\t', '\n'], " "))
+    } else if rep == INF && data.is_empty() {
+        // nothing to repeat: EOF (VectorSource, SigMFSource) and "never anything" are both fine
+        if got.is_empty() { "pass".to_string() } else { "FAIL output from an empty source".to_string() }
     } else if rep == INF {
         if eof {
             "FAIL infinite repeat reported EOF".to_string()
